@@ -110,8 +110,8 @@ func init() {
 		Budget: map[string]time.Duration{"quick": 8 * time.Minute, "thorough": 60 * time.Minute},
 		Reach:  []string{"value", "language-level error", "resource guard"},
 		Bounds: map[string]interface{}{"skeletons": "every infix operator x every ordered pair of 14 operand kinds; every prefix/postfix operator, index, slice, dot, index-assignment, del, builtin (1 and 2 arguments), call, for, if, function/variadic/macro argument x every kind; plus a list of loop, recursion, macro and boundary programs (see engine/props_c07.go)",
-			"values":  "all int64 for a,b,c; all float64 for x,y; both booleans; all 2-byte strings for s",
-			"depth":   "MaxDepth 60; loops whose trip count is symbolic are explored up to the executor's value-enumeration limit (64) and reported as bound-exceeded beyond"},
+			"values": "all int64 for a,b,c; all float64 for x,y; both booleans; all 2-byte strings for s",
+			"depth":  "MaxDepth 60; loops whose trip count is symbolic are explored up to the executor's value-enumeration limit (64) and reported as bound-exceeded beyond"},
 		Outside: []string{"programs deeper than one operator over the listed operand kinds", "extension functions (need extensions.Init; covered for argument validation by the repl-package harness when built)", "byte-level mutations of the shipped examples"},
 	})
 }
